@@ -121,6 +121,18 @@ where
             .with_fixint_encoding()
             .allow_trailing_bytes()
     }
+
+    /// Verification hook: registry entries `(id, kind)` (read-only).
+    #[cfg(crux_verif)]
+    pub fn verif_registry(&self) -> Vec<(u32, &'static str)> {
+        self.inner.verif_registry()
+    }
+
+    /// Verification hook: number of tasks held by the core's executor (read-only).
+    #[cfg(crux_verif)]
+    pub fn verif_executor_tasks(&self) -> usize {
+        self.inner.verif_executor_tasks()
+    }
 }
 
 /// A bridge with a user supplied serializer
@@ -239,5 +251,17 @@ where
             .view()
             .erased_serialize(&mut <dyn erased_serde::Serializer>::erase(ser))
             .map_err(BridgeError::SerializeView)
+    }
+
+    /// Verification hook: registry entries `(id, kind)` (read-only).
+    #[cfg(crux_verif)]
+    pub fn verif_registry(&self) -> Vec<(u32, &'static str)> {
+        self.registry.verif_entries()
+    }
+
+    /// Verification hook: number of tasks held by the core's executor (read-only).
+    #[cfg(crux_verif)]
+    pub fn verif_executor_tasks(&self) -> usize {
+        self.core.verif_executor_tasks()
     }
 }
